@@ -4,6 +4,7 @@ from ..rateprobe import run_case, reference, updated, common_buckets, exc_detail
 from ..util import MODEL_NAMES, KIND
 
 PROPERTY = "C01"
+TECHNIQUE = "runtime monitoring: reference-model monitor (independent mpmath evaluation) on every observed rate() return"
 LEVEL = "exploration"
 RULE = ("Random games over the stated box (5 models x configs x 8 regimes x every tie shape x rank/score/omitted "
         "encodings) plus every weak order for k<=4 on base games; each real rate() return is compared slot by slot "
